@@ -7,7 +7,7 @@ from ..lbgen import STRATS
 
 ID = "C03"
 MODULES = ["Helios.Props.C03", "Helios.Props.C12", "Helios.Props.Facts"]
-THEOREMS = ["Helios.LB.recovers", "Helios.LB.recovers_by_time", "Helios.CB.breaker_gate_opens", "Helios.LB.cbGate_admits",
+THEOREMS = ["Helios.Facts.lock_analysis_clean", "Helios.LB.recovers", "Helios.LB.recovers_by_time", "Helios.CB.breaker_gate_opens", "Helios.LB.cbGate_admits",
             "Helios.LB.rlGate_admits",
             "Helios.LB.conserved_run", "Helios.LB.gauges_zero_when_idle",
             "Helios.Locks.lockorder_sound", "Helios.Facts.lock_order_ranked", "Helios.Facts.no_callback_under_lock",
@@ -42,6 +42,11 @@ def targeted(strategy):
     eps.append(["ft new %s 0 0 2 0" % strategy, "ft req s500", "ft req s500", "ft req s500", "ft req ok", "ft probe"])
     eps.append(["ft new %s 1 0 2 0" % strategy, "ft req s500", "ft req s500", "ft req s500", "ft wait 1150", "ft req short",
                 "ft wait 1150", "ft req s500", "ft probe"])
+    # slow-but-healthy active probes in flight while passive ejections happen (a probe answer
+    # arriving inside the unhealthy window must leave the balancer usable)
+    eps.append(["ft new %s 0 0 1 0" % strategy, "ft health 700", "ft wait 1200", "ft req s500", "ft req s500", "ft req s500",
+                "ft wait 400", "ft req s500", "ft req s500", "ft req s500", "ft wait 900", "ft req s500", "ft req s500", "ft req s500",
+                "ft health 0", "ft probe"])
     return eps
 
 
@@ -66,7 +71,7 @@ def oracle(ep, outs):
     goroutines = []
     for line, o in zip(lines, outs):
         w = line.split()
-        if w[1] == "wait":
+        if w[1] in ("wait", "health"):
             continue
         if w[1] == "req":
             canon, _, detail = o.partition(" || ")
